@@ -87,6 +87,18 @@ def unwrap(n):
 _ALIAS = {}
 
 
+class _alias_scope:
+    """a nested Interp (callee summary, inlined helper) installs its own alias table; restore the caller's afterwards"""
+    def __enter__(self):
+        self.saved = dict(_ALIAS)
+        return self
+
+    def __exit__(self, *exc):
+        _ALIAS.clear()
+        _ALIAS.update(self.saved)
+        return False
+
+
 def _deref_alias(n):
     seen = 0
     while n is not None and n.get("k") == "Ref" and n.get("dk") == "local" and n.get("d") in _ALIAS and seen < 4:
@@ -344,6 +356,16 @@ def join_state(a, b):
             if k in a and k in b and (a[k] & b[k]):
                 out[k] = a[k] & b[k]
             continue
+        if k[0] == "lenvar":
+            if k in a and k in b and a[k] != b[k]:
+                continue
+            out[k] = a.get(k, b.get(k))
+            continue
+        if k[0] == "val":
+            # value of a flag / mode local: kept only if both paths agree (a path on which it was never set does not)
+            if k in a and k in b and a[k] == b[k] and type(a[k]) is type(b[k]):
+                out[k] = a[k]
+            continue
         if k[0] == "pend":
             d = dict(a.get(k) or ())
             d.update(dict(b.get(k) or ()))
@@ -423,6 +445,10 @@ class Unknown(Exception):
     pass
 
 
+_FALL = object()       # Interp.ret_value: the statement fell through
+_NOVAL = object()      # Interp.ret_value: value not derivable
+
+
 class Interp:
     """abstract interpretation of one function.  Results:
          obligations : list of (rule, subkey, ok, detail, line)
@@ -458,9 +484,26 @@ class Interp:
         self.fresh = 0
         self.copy_events = []     # (dst obj, vec, src obj, line) content copies (MemoryPool::copy/convert)
         self.localdefs = {}
+        self.localvars = {}
         for n in fn.nodes():
             if n.get("k") == "Var" and n.get("init") is not None:
                 self.localdefs[n["d"]] = n["init"]
+                self.localvars[n["d"]] = n
+        # branch conditions that depend on an environment parameter (the CloneMode under which the function is interpreted)
+        # but could not be evaluated: both sides were interpreted and joined, so a per-mode table read off the exit
+        # state is an over-approximation, not the table of that mode
+        self.mode_undecided = []
+        self._stable = {}
+        self._cur = None          # the path state conditions are evaluated in (values of flag / mode locals assigned on the way)
+        if self.env:
+            for x in fn.nodes():
+                t = None
+                if x.get("k") == "Assign":
+                    t = unwrap(x["lhs"])
+                elif x.get("k") == "Un" and x.get("op") in ("++", "--", "&"):
+                    t = unwrap(x["e"])
+                if t is not None and t.get("k") == "Ref" and t.get("dk") == "param" and t.get("n") in self.env:
+                    self.unknown.append("parameter %s is modified at line %s: the interpretation under a fixed value of it is not valid" % (t["n"], x.get("l")))
 
     # ---- helpers -------------------------------------------------------------------------------
     def ob(self, rule, sub, ok, detail, line):
@@ -547,8 +590,12 @@ class Interp:
     def _run(self):
         fn = self.fn
         st = {}
+        modelled = set()
         for n in fn.nodes():
-            if n.get("k") == "Lambda" and n.get("body") is not None and self.has_events(n["body"]):
+            if is_call(n) and self.for_each_pool(n) is not None:
+                modelled.add(id(n["a"][2]))
+        for n in fn.nodes():
+            if n.get("k") == "Lambda" and n.get("body") is not None and self.has_events(n["body"]) and id(n) not in modelled:
                 self.taint_all = "a lambda at line %s works on the pointer vectors / MemoryPool" % n.get("l")
         if self.init_state is not None:
             st = dict(self.init_state)
@@ -655,11 +702,20 @@ class Interp:
         if st is None or n is None:
             return st
         k = n.get("k")
+        self._cur = st
         if k == "Block":
-            for s in n.get("s", []):
+            stmts = n.get("s", [])
+            i = 0
+            while i < len(stmts):
+                s = stmts[i]
+                f = self.while_as_for(stmts, i)
+                if f is not None:
+                    s = f
+                    i += 1
                 st = self.stmt(s, st)
                 if st is None:
                     break
+                i += 1
             return st
         if k == "Null_":
             return st
@@ -699,6 +755,47 @@ class Interp:
             return self.stmt(n.get("s"), st)
         return self.expr(n, st)
 
+    def while_as_for(self, stmts, i):
+        """`T v(init); while(c(v)) { body; ++v; }` with v dead after the loop -> the equivalent For node (for <-> while)"""
+        if i + 1 >= len(stmts):
+            return None
+        d, w = stmts[i], stmts[i + 1]
+        if d.get("k") != "Decl" or len(d.get("vars", [])) != 1 or w.get("k") != "While" or w.get("c") is None:
+            return None
+        v = d["vars"][0]
+        if v.get("init") is None or v.get("ref"):
+            return None
+        vd = v["d"]
+        body = w.get("body") or {}
+        items = body.get("s", []) if body.get("k") == "Block" else [body]
+        if not items:
+            return None
+        last = items[-1]
+        step = last.get("k") == "Un" and last.get("op") in ("++", "--") and unwrap(last["e"]).get("k") == "Ref" and unwrap(last["e"]).get("d") == vd
+        if not step and last.get("k") in ("OpCall",) and last.get("op") in ("++", "--") and last.get("a") and unwrap(last["a"][0]).get("d") == vd:
+            step = True
+        if not step:
+            # reverse form: `T v(n); while(v > 0) { --v; body; }` - the step leads the body
+            first = items[0]
+            if len(items) >= 2 and first.get("k") == "Un" and first.get("op") == "--" and unwrap(first["e"]).get("k") == "Ref" and unwrap(first["e"]).get("d") == vd \
+                    and not self.reassigned_in({"k": "Block", "s": items[1:]}, vd) and not any(x.get("k") == "Continue" for x in walk(body)) \
+                    and not any(x.get("k") == "Ref" and x.get("d") == vd for later in stmts[i + 2:] for x in walk(later)):
+                return {"k": "For", "init": d, "c": w["c"], "inc": None, "body": body, "l": w.get("l"), "i": w.get("i")}
+            return None
+        if not any(x.get("k") == "Ref" and x.get("d") == vd for x in walk(w["c"])):
+            return None
+        rest = {"k": "Block", "s": items[:-1]}
+        # the step must be the only modification of v, and no `continue` may skip it
+        for x in walk(rest):
+            if x.get("k") == "Continue":
+                return None
+        if self.reassigned_in(rest, vd):
+            return None
+        for later in stmts[i + 2:]:
+            if any(x.get("k") == "Ref" and x.get("d") == vd for x in walk(later)):
+                return None
+        return {"k": "For", "init": d, "c": w["c"], "inc": last, "body": rest if len(items) != 2 else items[0], "l": w.get("l"), "i": w.get("i")}
+
     def decl(self, v, st):
         init = v.get("init")
         t = self.fn.type(v.get("t"))
@@ -707,6 +804,13 @@ class Interp:
             st = self.expr(init, st, decl_obj=o)
             if st is None:
                 return None
+            # hoisted loop bound `const std::size_t n(O.V.size())`: the abstract length of the vector at this point
+            sz = self.size_call_of(init)
+            if sz is not None and not v.get("ref"):
+                st[("lenvar", v["d"])] = self.len_of_vec(sz, st)
+            if not v.get("ref") and re.search(r"\bbool\b|CloneMode|\b(int|unsigned|long|short|char)\b", t or ""):
+                self._cur = st
+                self.track_value(st, v["d"], init)
         if self.fam.is_family_type(t) and not v.get("ref") and "*" not in t:
             if (("flag", o)) not in st:
                 self.set_valid(st, o, self.fam.cls_of_type(t))
@@ -715,9 +819,47 @@ class Interp:
                 raise Unknown("reference alias %s of a container with lifetime events" % v["n"])
         return st
 
+    def size_call_of(self, e):
+        """X if e is `X.size()` (through casts / value-initialising wrappers) of a tracked pointer vector, size vector or getter"""
+        e = unwrap(e)
+        while e is not None and e.get("k") in ("Construct", "TempObj") and len(e.get("a", [])) == 1:
+            e = unwrap(e["a"][0])
+        if e is not None and e.get("k") == "MCall" and e.get("n") == "size" and e.get("obj") is not None:
+            x = unwrap(e["obj"])
+            if vec_member(x) or size_member(x) or (x.get("k") == "MCall" and x.get("n") in ("get_elements", "get_indices", "get_elements_size", "get_indices_size")):
+                return e["obj"]
+        return None
+
+    def hoisted_len(self, e, st):
+        """abstract length a loop bound denotes: `X.size()` now, or a single-assignment local initialised with it earlier"""
+        e = unwrap(e)
+        while e is not None and e.get("k") in ("Construct", "TempObj") and len(e.get("a", [])) == 1:
+            e = unwrap(e["a"][0])
+        if e is None:
+            return None
+        if e.get("k") == "Ref" and e.get("dk") == "local" and st is not None and ("lenvar", e.get("d")) in st and self.stable_init(e) is not None:
+            return st[("lenvar", e["d"])]
+        return None
+
     def has_events(self, n):
         for x in walk(n):
             if vec_member(x) or (is_call(x) and str(x.get("callee", "")).startswith(POOL + ("release_memory")) or str(x.get("callee", "")).startswith(POOL + "increase_memory")):
+                return True
+        return False
+
+    def has_mutations(self, n):
+        """does the expression change the tracked state (pool calls, vector mutators, flag writes, non-const family methods)?"""
+        for x in walk(n):
+            if is_call(x) and str(x.get("callee", "")).startswith(POOL) and not str(x.get("callee", "")).endswith("allocated_size"):
+                return True
+            if x.get("k") == "MCall" and x.get("obj") is not None and (vec_member(x["obj"]) or size_member(x["obj"])):
+                if x.get("n") not in VEC_READS | VEC_SLOT or self.is_written(x):
+                    return True
+            if x.get("k") == "OpCall" and x.get("op") == "=" and x.get("a") and (vec_member(x["a"][0]) or size_member(x["a"][0])):
+                return True
+            if x.get("k") == "Assign" and unwrap(x["lhs"]).get("k") == "Member" and FLAG_RE.search(unwrap(x["lhs"]).get("qn", "")):
+                return True
+            if x.get("k") == "MCall" and short(x.get("ccls", "")) in self.fam.classes and not x.get("cconst") and not x.get("cstatic"):
                 return True
         return False
 
@@ -737,6 +879,30 @@ class Interp:
             return bool(c["v"])
         if k == "Ref" and c.get("dk") == "param" and isinstance(self.env.get(c.get("n")), bool):
             return self.env[c["n"]]
+        if k == "Ref" and c.get("dk") == "local":
+            # named temporary for a test (`const bool copy_content(clone_mode == CloneMode::Deep)`): copy propagation;
+            # a flag assigned on the way (`bool copy = false; if(mode == Deep) copy = true;`): its value on this path
+            v = self.tracked_value(c)
+            if v is not None:
+                return bool(v)
+            init = self.pure_stable_init(c)
+            return self.eval_cond(init) if init is not None else None
+        if k in ("Construct", "TempObj") and len(c.get("a", [])) == 1 and not short(c.get("ccls", "")) in self.fam.classes:
+            return self.eval_cond(c["a"][0])
+        if k == "Cond":
+            v = self.eval_cond(c["c"])
+            if v is None:
+                a, b = self.eval_cond(c["then"]), self.eval_cond(c["else"])
+                return a if a is not None and a == b else None
+            return self.eval_cond(c["then"] if v else c["else"])
+        if k in ("Call", "MCall") and not c.get("noreturn"):
+            v = self.eval_call(c)
+            return None if v is None else bool(v)
+        if k == "Bin" and c.get("op") in ("<", "<=", ">", ">="):
+            a, b = self.const_of(c["lhs"]), self.const_of(c["rhs"])
+            if a is None or b is None or isinstance(a, bool) or isinstance(b, bool):
+                return None
+            return {"<": a < b, "<=": a <= b, ">": a > b, ">=": a >= b}[c["op"]]
         if k == "Ref" and c.get("v") is not None and c.get("dk") in ("smember", "global", "tparam", "enum"):
             try:
                 return bool(int(c["v"]))          # compile-time constant (std::is_same<...>::value, ...)
@@ -761,25 +927,247 @@ class Interp:
         if k == "Bin" and c.get("op") in ("==", "!="):
             a, b = self.const_of(c["lhs"]), self.const_of(c["rhs"])
             if a is None or b is None:
-                return None
+                # comparison of two truth values (`copy_content == true`, `a == b` on bools)
+                if "bool" in self.fn.ntype(unwrap(c["lhs"])) and "bool" in self.fn.ntype(unwrap(c["rhs"])):
+                    a, b = self.eval_cond(c["lhs"]), self.eval_cond(c["rhs"])
+                if a is None or b is None:
+                    return None
             return (a == b) if c["op"] == "==" else (a != b)
         return None
 
     def const_of(self, e):
         e = unwrap(e)
-        if e.get("k") == "Cond":
+        k = e.get("k")
+        if k == "Cond":
             v = self.eval_cond(e["c"])
             if v is None:
-                return None
+                a, b = self.const_of(e["then"]), self.const_of(e["else"])
+                return a if a is not None and a == b else None
             return self.const_of(e["then"] if v else e["else"])
-        if e.get("k") == "Ref":
+        if k == "Ref":
             if e.get("dk") == "param" and e["n"] in self.env:
                 return self.env[e["n"]]
             if e.get("dk") == "enum" and e.get("v") is not None:
                 return int(e["v"])
-        if e.get("k") == "Int":
+            if e.get("dk") == "local":
+                # `const CloneMode mode(clone_mode);` / `const int m = int(clone_mode);`
+                v = self.tracked_value(e)
+                if v is not None:
+                    return v
+                init = self.pure_stable_init(e)
+                return self.const_of(init) if init is not None else None
+            if e.get("v") is not None and e.get("dk") in ("smember", "global", "tparam"):
+                try:
+                    return int(e["v"])
+                except ValueError:
+                    return None
+        if k in ("Construct", "TempObj") and len(e.get("a", [])) == 1 and not short(e.get("ccls", "")) in self.fam.classes:
+            return self.const_of(e["a"][0])
+        if k == "Int":
             return int(e["v"])
+        if k == "Bool":
+            return bool(e["v"])
+        if k in ("Call", "MCall") and not e.get("noreturn"):
+            return self.eval_call(e)
         return None
+
+    # ---- copy propagation / helper predicates ----------------------------------------------------
+    def stable_init(self, ref):
+        """initialiser of a single-assignment local (never assigned, stepped, address-taken or bound to a mutable
+        reference parameter after its declaration); None otherwise"""
+        d = ref.get("d")
+        if d not in self.localdefs:
+            return None
+        if d not in self._stable:
+            ok = not self.reassigned(d)
+            var = self.localvars.get(d) or {}
+            if ok and not var.get("const"):
+                for x in self.fn.nodes():
+                    if is_call(x):
+                        pts = x.get("pt") or []
+                        for i, a in enumerate(x.get("a") or []):
+                            a0 = unwrap(a)
+                            if a0.get("k") == "Ref" and a0.get("d") == d:
+                                t = self.fn.type(pts[i]) if i < len(pts) else ""
+                                if t.rstrip().endswith("&") and not t.startswith("const "):
+                                    ok = False
+                    if x.get("k") == "Var" and x.get("ref") and not x.get("const") and x.get("init") is not None \
+                            and unwrap(x["init"]).get("k") == "Ref" and unwrap(x["init"]).get("d") == d:
+                        ok = False
+            if ok and var.get("ref"):
+                ok = False          # a reference local denotes something else
+            self._stable[d] = ok
+        return self.localdefs[d] if self._stable[d] else None
+
+    def tracked_value(self, ref):
+        cur = self._cur
+        if cur is not None:
+            return cur.get(("val", ref.get("d")))
+        return None
+
+    def pure_stable_init(self, ref, depth=0):
+        """stable_init, provided the initialiser reads no local that is itself assigned later (its value at the declaration
+        could differ from its value now)"""
+        init = self.stable_init(ref)
+        if init is None or depth > 4:
+            return None
+        for x in walk(init):
+            if x.get("k") == "Ref" and x.get("dk") == "local" and x.get("d") != ref.get("d"):
+                if self.pure_stable_init(x, depth + 1) is None and x.get("d") in self.localdefs:
+                    return None
+                if x.get("d") not in self.localdefs:
+                    return None
+        return init
+
+    def track_value(self, st, d, e):
+        v = self.value_of(e) if e is not None else None
+        if v is None:
+            st.pop(("val", d), None)
+        else:
+            st[("val", d)] = v
+
+    def any_callee(self, call):
+        """the analysed function (family or not: free / static helpers of the repository) a call resolves to"""
+        f = self.fam.callee_fn(self.fn, call)
+        if f is not None:
+            return f
+        facts = self.fn.facts
+        idx = facts.__dict__.get("_lr_by_decl")
+        if idx is None:
+            idx = {}
+            for g in facts.functions:
+                if g.body is not None and g.d.get("decl") is not None:
+                    idx[g.d["decl"]] = g
+            facts.__dict__["_lr_by_decl"] = idx
+        return idx.get(call.get("cdecl"))
+
+    def eval_call(self, call):
+        """value (bool / int) of a call to a small side-effect-free helper of the repository whose arguments are constants
+        under self.env - `copies_content(clone_mode)`, `is_deep(mode)`, a constexpr table lookup: the callee's body is
+        evaluated with its parameters bound (bounded depth, non-virtual).  None if it is not of that form."""
+        if self.depth > 3 or call.get("k") not in ("Call", "MCall"):
+            return None
+        callee = self.any_callee(call)
+        if callee is None or callee.body is None or callee.d.get("virtual") or callee is self.fn:
+            return None
+        args = call.get("a") or []
+        if len(args) != len(callee.params):
+            return None
+        env = {}
+        for p, a in zip(callee.params, args):
+            v = self.value_of(a)
+            if v is not None:
+                env[p["n"]] = v
+        if not env and callee.params:
+            return None
+        # the callee must not work on the tracked vectors / the pool / any state: only returns, ifs, switches, const locals
+        saved = dict(_ALIAS)
+        try:
+            sub = Interp(self.fam, callee, env=env, depth=self.depth + 1)
+            if sub.unknown:
+                return None
+            r = sub.ret_value(callee.body)
+        finally:
+            _ALIAS.clear()
+            _ALIAS.update(saved)
+        return None if r in (_FALL, _NOVAL) else r
+
+    def value_of(self, e):
+        e0 = unwrap(e)
+        t = self.fn.ntype(e0) if e0.get("t") is not None else ""
+        if e0.get("k") == "Bool" or (e0.get("k") == "Bin" and e0.get("op") in ("==", "!=", "<", "<=", ">", ">=", "&&", "||")) \
+                or (e0.get("k") == "Un" and e0.get("op") == "!") or re.match(r"^(const )?bool\b", t or ""):
+            return self.eval_cond(e0)
+        v = self.const_of(e0)
+        return v
+
+    def ret_value(self, n):
+        """value returned by a side-effect-free body under self.env; _FALL (fell through), _NOVAL (not derivable)"""
+        if n is None:
+            return _FALL
+        k = n.get("k")
+        if k == "Block":
+            for s in n.get("s", []):
+                r = self.ret_value(s)
+                if r is not _FALL:
+                    return r
+            return _FALL
+        if k in ("Null_",):
+            return _FALL
+        if k == "Decl":
+            for v in n.get("vars", []):
+                if v.get("init") is not None and any(is_call(x) and x.get("k") in ("Call", "MCall") and self.any_callee(x) is None and
+                                                      not str(x.get("callee", "")).startswith("std::") for x in walk(v["init"])):
+                    return _NOVAL
+            return _FALL
+        if k == "If":
+            v = self.eval_cond(n["c"])
+            if v is None and n.get("constexpr"):
+                th, el = n.get("then"), n.get("else")
+                if th is not None and th.get("k") == "Null_":
+                    return self.ret_value(el)
+                if el is not None and el.get("k") == "Null_":
+                    return self.ret_value(th)
+            if v is None:
+                return _NOVAL
+            return self.ret_value(n.get("then")) if v else self.ret_value(n.get("else"))
+        if k == "Switch":
+            val = self.const_of(n["c"])
+            if val is None:
+                return _NOVAL
+            body = n.get("body") or {}
+            items = body.get("s", []) if body.get("k") == "Block" else [body]
+            start, default_at = None, None
+            flat = []
+            for s in items:
+                inner = s
+                while inner is not None and inner.get("k") in ("Case", "Default"):
+                    if inner.get("k") == "Default":
+                        default_at = len(flat)
+                    else:
+                        cv = self.const_of(inner.get("v") or {})
+                        if cv is None:
+                            return _NOVAL
+                        if cv == val and start is None:
+                            start = len(flat)
+                    inner = inner.get("s")
+                if inner is not None:
+                    flat.append(inner)
+            if start is None:
+                start = default_at
+            if start is None:
+                return _FALL
+            for s in flat[start:]:
+                if s.get("k") == "Break":
+                    return _FALL
+                r = self.ret_value(s)
+                if r is not _FALL:
+                    return r
+            return _FALL
+        if k == "Return":
+            if n.get("e") is None:
+                return _NOVAL
+            v = self.value_of(n["e"])
+            return _NOVAL if v is None else v
+        if is_call(n) and n.get("callee") == "FEAT::assertion":
+            return _FALL
+        return _NOVAL
+
+    def depends_on_env(self, c, depth=0):
+        """does the expression read an environment parameter (directly, through single-assignment locals, or as a call argument)?"""
+        if not self.env or depth > 6:
+            return False
+        for x in walk(c):
+            if x.get("k") == "Ref" and x.get("dk") == "param" and x.get("n") in self.env:
+                return True
+            if x.get("k") == "Ref" and x.get("dk") == "local":
+                if x.get("d") in self.localdefs and self.depends_on_env(self.localdefs[x["d"]], depth + 1):
+                    return True
+                # a flag / mode local that is assigned after its declaration may be set under a test of the parameter
+                # (control dependence): conservatively yes
+                if self.reassigned(x["d"]) and re.search(r"\bbool\b|CloneMode|\bint\b", self.fn.ntype(x) or ""):
+                    return True
+        return False
 
     def refine(self, c, st, truth):
         """refine st by the branch condition c being `truth`"""
@@ -802,6 +1190,17 @@ class Interp:
         if k == "Bin" and ((c.get("op") == "&&" and truth) or (c.get("op") == "||" and not truth)):
             st = self.refine(c["lhs"], st, truth)
             return self.refine(c["rhs"], st, truth)
+        if k == "MCall" and not c.get("a") and short(c.get("ccls", "")) in self.fam.classes and (c.get("obj") is None or obj_id(c.get("obj")) == "this") \
+                and getattr(self, "_refine_depth", 0) < 2:
+            # guard spelled as a predicate of this object (`bool _owns_arrays() const { return !_foreign_memory; }`)
+            callee = self.fam.callee_fn(self.fn, c)
+            rx = single_return_expr(callee) if callee is not None and not callee.d.get("virtual") else None
+            if rx is not None and any(x.get("k") == "Member" and FLAG_RE.search(x.get("qn", "")) for x in walk(rx)):
+                self._refine_depth = getattr(self, "_refine_depth", 0) + 1
+                try:
+                    return self.refine(rx, st, truth)
+                finally:
+                    self._refine_depth -= 1
         if k == "Member" and FLAG_RE.search(c.get("qn", "")):
             o = obj_id(c.get("b"))
             if o is None:
@@ -851,7 +1250,10 @@ class Interp:
         st = self.expr(c, st)
         if st is None:
             return None
+        self._cur = st
         v = self.eval_cond(c)
+        if v is None and self.env and self.depends_on_env(c):
+            self.mode_undecided.append("`%s` (line %s)" % (render(c)[:80], n.get("l")))
         a = b = None
         s1, s2 = self.refine(c, dict(st), True), self.refine(c, dict(st), False)
         # a condition the interpreter learns nothing from may be a guard in disguise (if(owns_arrays()) ...)
@@ -870,12 +1272,23 @@ class Interp:
                 self.opaque_conds.pop()
         return join_state(a, b)
 
-    def pool_loop(self, n):
+    def pool_loop(self, n, st=None):
         """recognise `for(i=0; i<O.V.size(); ++i) MemoryPool::release|increase_memory(O.V.at(i))` and the
         range-for equivalent.  -> (what, obj-expr, kind, range-ok, call) or None"""
         body = n.get("body")
         while body is not None and body.get("k") == "Block" and len(body.get("s", [])) == 1:
             body = body["s"][0]
+        # `{ T* const p = V.at(i); f(p); }` - the element named first; `{ --i; f(V.at(i)); }` - reverse loop stepping in the body
+        named = {}
+        pre_dec = None
+        if body is not None and body.get("k") == "Block" and len(body.get("s", [])) == 2:
+            s0, s1 = body["s"]
+            if s0.get("k") == "Decl" and len(s0.get("vars", [])) == 1 and s0["vars"][0].get("init") is not None and s1.get("k") == "Call":
+                named[s0["vars"][0]["d"]] = s0["vars"][0]["init"]
+                body = s1
+            elif s0.get("k") == "Un" and s0.get("op") == "--" and unwrap(s0["e"]).get("k") == "Ref" and s1.get("k") == "Call" and n.get("inc") is None:
+                pre_dec = unwrap(s0["e"])["d"]
+                body = s1
         if body is None or body.get("k") != "Call":
             return None
         cal = body.get("callee", "")
@@ -883,6 +1296,12 @@ class Interp:
             return None
         what = "REL" if cal.endswith("release_memory") else "INC"
         arg = unwrap(body["a"][0])
+        if arg.get("k") == "Ref" and arg.get("d") in named:
+            arg = unwrap(named[arg["d"]])
+            while arg.get("k") in ("Construct", "TempObj") and len(arg.get("a", [])) == 1:
+                arg = unwrap(arg["a"][0])
+        elif named:
+            return None
         if n["k"] == "ForRange":
             rng = unwrap(n.get("range"))
             vm = vec_member(rng)
@@ -914,6 +1333,32 @@ class Interp:
                 if deref and endok and incok and e0.get("k") == "MCall" and e0.get("n") in ("end", "cend") and vec_member(e0.get("obj")):
                     k1, b1 = vec_member(e0["obj"])
                     return what, b0, kind0, (k1 == kind0 and obj_id(b1) == obj_id(b0)), body
+        # pointer-range form: for(T** p = O.V.data(); p != O.V.data() + O.V.size(); ++p) f(*p)   (end possibly hoisted)
+        if init0 is not None and init0.get("k") == "Decl" and len(init0["vars"]) >= 1 and init0["vars"][0].get("init") is not None:
+            v0 = init0["vars"][0]
+            vb = self.vec_base_ptr(v0["init"])
+            if vb is not None and "*" in (self.fn.type(v0.get("t")) or ""):
+                kind0, b0 = vb
+                deref = (arg.get("k") == "Un" and arg.get("op") == "*" and unwrap(arg["e"]).get("d") == v0["d"]) or \
+                    (arg.get("k") == "Index" and unwrap(arg["b"]).get("d") == v0["d"] and unwrap(arg["idx"]).get("k") == "Int" and unwrap(arg["idx"])["v"] == "0")
+                c0 = unwrap(n.get("c") or {})
+                inc0 = n.get("inc") or {}
+                incok = inc0.get("k") == "Un" and inc0.get("op") == "++" and unwrap(inc0["e"]).get("d") == v0["d"]
+                if deref and incok and c0.get("k") == "Bin" and c0.get("op") in ("!=", "<") and unwrap(c0["lhs"]).get("d") == v0["d"]:
+                    e0 = unwrap(c0["rhs"])
+                    if e0.get("k") == "Ref" and e0.get("dk") == "local":
+                        # the end pointer declared next to the cursor or hoisted before the loop
+                        e1 = None
+                        for vv in init0["vars"][1:]:
+                            if vv["d"] == e0.get("d"):
+                                e1 = vv.get("init")
+                        if e1 is None:
+                            e1 = self.stable_init(e0)
+                        e0 = unwrap(e1) if e1 is not None else {}
+                    ve = self.vec_end_ptr(e0)
+                    if ve is not None:
+                        return what, b0, kind0, (ve[0] == kind0 and obj_id(ve[1]) == obj_id(b0)), body
+                    return None
         # slot expression O.V.at(i) / O.V[i]
         slot = None
         if arg.get("k") == "MCall" and arg.get("n") in ("at", "operator[]") and vec_member(arg.get("obj")):
@@ -925,6 +1370,14 @@ class Interp:
         kind, b = vec_member(slot[0])
         idx = unwrap(slot[1])
         init = n.get("init")
+        # reverse index form (the order of the independent release / increase calls does not matter):
+        #   for(i = O.V.size(); i > 0; --i) f(O.V.at(i - 1))      for(i = O.V.size(); i > 0;) { --i; f(O.V.at(i)); }
+        #   for(i = O.V.size(); i-- > 0;) f(O.V.at(i))
+        rv = self.reverse_index_loop(n, idx, pre_dec, st, b, kind)
+        if rv is not None:
+            return what, b, kind, rv == "ok", body
+        if pre_dec is not None:
+            return None
         ivar = None
         if init is not None and init.get("k") == "Decl" and len(init["vars"]) == 1:
             v = init["vars"][0]
@@ -948,13 +1401,137 @@ class Interp:
                 else:
                     return None
             else:
-                return None
+                # hoisted bound: a single-assignment local that recorded the length of a tracked vector; it bounds this
+                # loop correctly iff that length is the present length of the vector whose slots are passed
+                hl = self.hoisted_len(r, st)
+                o_ = obj_id(b)
+                if hl is None or o_ is None or st is None or ("len", o_, kind) not in st:
+                    return None
+                cur = st[("len", o_, kind)][0]
+                if len_opaque(hl) or len_opaque(cur):
+                    return None
+                rng_ok = hl == cur
         else:
             return None
         return what, b, kind, rng_ok, body
 
+    def for_each_pool(self, n):
+        """`std::for_each(O.V.begin(), O.V.end(), [](T* p){ MemoryPool::release|increase_memory(p); })` - the algorithm form
+        of the whole-vector loop.  -> (what, obj-expr, kind, range-ok) or None"""
+        if n.get("k") != "Call" or n.get("callee") != "std::for_each" or len(n.get("a") or []) != 3:
+            return None
+        a0, a1, lam = unwrap(n["a"][0]), unwrap(n["a"][1]), unwrap(n["a"][2])
+        if lam.get("k") != "Lambda" or lam.get("body") is None:
+            return None
+        if not (a0.get("k") == "MCall" and a0.get("n") in ("begin", "cbegin") and vec_member(a0.get("obj"))):
+            return None
+        if not (a1.get("k") == "MCall" and a1.get("n") in ("end", "cend") and vec_member(a1.get("obj"))):
+            return None
+        body = lam["body"]
+        while body is not None and body.get("k") == "Block" and len(body.get("s", [])) == 1:
+            body = body["s"][0]
+        if body is None or body.get("k") != "Call" or body.get("callee") not in (POOL + "release_memory", POOL + "increase_memory") or len(body.get("a", [])) != 1:
+            return None
+        arg = unwrap(body["a"][0])
+        own_params = {p_["d"] for p_ in self.fn.params}
+        if arg.get("k") != "Ref" or arg.get("dk") != "param" or arg.get("d") in own_params:
+            return None
+        k0, b0 = vec_member(a0["obj"])
+        k1, b1 = vec_member(a1["obj"])
+        return ("REL" if body["callee"].endswith("release_memory") else "INC"), b0, k0, (k0 == k1 and obj_id(b0) == obj_id(b1))
+
+    def vec_base_ptr(self, e):
+        """(kind, base) if e points at element 0 of a tracked pointer vector: V.data(), &V[0], &V.at(0), &V.front(), &*V.begin()"""
+        e = unwrap(e)
+        while e is not None and e.get("k") in ("Construct", "TempObj") and len(e.get("a", [])) == 1:
+            e = unwrap(e["a"][0])
+        if e is None:
+            return None
+        if e.get("k") == "MCall" and e.get("n") == "data" and vec_member(e.get("obj")):
+            return vec_member(e["obj"])
+        if e.get("k") == "Un" and e.get("op") == "&":
+            x = unwrap(e["e"])
+            if x.get("k") == "MCall" and x.get("n") == "front" and vec_member(x.get("obj")):
+                return vec_member(x["obj"])
+            if x.get("k") == "MCall" and x.get("n") in ("at", "operator[]") and vec_member(x.get("obj")) and x.get("a") and unwrap(x["a"][0]).get("k") == "Int" \
+                    and unwrap(x["a"][0])["v"] == "0":
+                return vec_member(x["obj"])
+            if x.get("k") == "OpCall" and x.get("op") == "[]" and x.get("a") and vec_member(x["a"][0]) and unwrap(x["a"][1]).get("k") == "Int" and unwrap(x["a"][1])["v"] == "0":
+                return vec_member(x["a"][0])
+            if x.get("k") == "OpCall" and x.get("op") == "*" and x.get("a"):
+                y = unwrap(x["a"][0])
+                if y.get("k") == "MCall" and y.get("n") in ("begin", "cbegin") and vec_member(y.get("obj")):
+                    return vec_member(y["obj"])
+        return None
+
+    def vec_end_ptr(self, e):
+        """(kind, base) if e is one past the last element: V.data() + V.size() (either order) with both parts of the same vector"""
+        e = unwrap(e)
+        if e.get("k") == "Bin" and e.get("op") == "+":
+            for p_, n_ in ((e["lhs"], e["rhs"]), (e["rhs"], e["lhs"])):
+                vb = self.vec_base_ptr(p_)
+                sz = unwrap(n_)
+                while sz.get("k") in ("Construct", "TempObj") and len(sz.get("a", [])) == 1:
+                    sz = unwrap(sz["a"][0])
+                if vb is not None and sz.get("k") == "MCall" and sz.get("n") == "size" and vec_member(sz.get("obj")):
+                    vs = vec_member(sz["obj"])
+                    if vs[0] == vb[0] and obj_id(vs[1]) == obj_id(vb[1]):
+                        return vb
+                    return ("?", None)
+        return None
+
+    def reverse_index_loop(self, n, idx, pre_dec, st, b, kind):
+        """'ok' / 'range' (bounded by another vector) if the For runs i from V.size() down to 1 and the slot index is the
+        matching i - 1 (or i after a decrement that precedes the call); None if the loop is not of that form"""
+        init, c, inc = n.get("init"), unwrap(n.get("c") or {}), n.get("inc")
+        if init is None or init.get("k") != "Decl" or len(init["vars"]) != 1 or init["vars"][0].get("init") is None:
+            return None
+        v = init["vars"][0]
+        start = unwrap(v["init"])
+        while start.get("k") in ("Construct", "TempObj") and len(start.get("a", [])) == 1:
+            start = unwrap(start["a"][0])
+        # where the index is decremented: in the increment clause (slot i - 1), first thing in the body (slot i), or in the
+        # condition `i-- > 0` (slot i)
+        cond_dec = False
+        cc = c
+        if cc.get("k") == "Bin" and cc.get("op") in (">", "!="):
+            l0 = unwrap(cc["lhs"])
+            if l0.get("k") == "Un" and l0.get("op") == "--" and l0.get("post") and unwrap(l0["e"]).get("d") == v["d"]:
+                cond_dec = True
+                l0 = unwrap(l0["e"])
+            r0 = unwrap(cc["rhs"])
+            while r0.get("k") in ("Construct", "TempObj") and len(r0.get("a", [])) == 1:
+                r0 = unwrap(r0["a"][0])
+            if not (l0.get("k") == "Ref" and l0.get("d") == v["d"] and r0.get("k") == "Int" and r0["v"] == "0"):
+                return None
+        else:
+            return None
+        inc_dec = inc is not None and inc.get("k") == "Un" and inc.get("op") == "--" and unwrap(inc["e"]).get("d") == v["d"]
+        ways = [inc_dec, pre_dec == v["d"], cond_dec]
+        if sum(1 for w in ways if w) != 1 or (inc is not None and not inc_dec):
+            return None
+        # the slot index
+        if inc_dec:
+            ok_idx = idx.get("k") == "Bin" and idx.get("op") == "-" and unwrap(idx["lhs"]).get("d") == v["d"] and unwrap(idx["rhs"]).get("k") == "Int" \
+                and unwrap(idx["rhs"])["v"] == "1"
+        else:
+            ok_idx = idx.get("k") == "Ref" and idx.get("d") == v["d"]
+        if not ok_idx:
+            return None
+        # start value: the size of the very vector (now, or hoisted)
+        if start.get("k") == "MCall" and start.get("n") == "size" and vec_member(start.get("obj")):
+            vm2 = vec_member(start["obj"])
+            return "ok" if vm2[0] == kind and obj_id(vm2[1]) == obj_id(b) else "range"
+        hl = self.hoisted_len(start, st)
+        o_ = obj_id(b)
+        if hl is not None and o_ is not None and st is not None and ("len", o_, kind) in st:
+            cur = st[("len", o_, kind)][0]
+            if not len_opaque(hl) and not len_opaque(cur):
+                return "ok" if hl == cur else "range"
+        return None
+
     def loop(self, n, st):
-        pl = self.pool_loop(n)
+        pl = self.pool_loop(n, st)
         if pl is not None:
             what, b, kind, rng_ok, call = pl
             o = obj_id(b)
@@ -1044,6 +1621,9 @@ class Interp:
             e = unwrap(e["a"][0])
         if e.get("k") == "MCall" and e.get("n") == "size" and e.get("obj") is not None:
             return self.len_of_vec(e["obj"], dict(st))
+        hl = self.hoisted_len(e, st)
+        if hl is not None:
+            return hl
         return ("e:" + render(e)[:40], 0)
 
     def reassigned_in(self, body, d):
@@ -1111,7 +1691,10 @@ class Interp:
             return labs, inner
 
         # the switch value is fixed by the caller's environment: enter at the matching label only
+        self._cur = st
         val = self.const_of(n["c"])
+        if val is None and self.env and self.depends_on_env(n["c"]):
+            self.mode_undecided.append("switch(%s) (line %s)" % (render(n["c"])[:80], n.get("l")))
         target = None
         if val is not None:
             default_at = None
@@ -1199,6 +1782,7 @@ class Interp:
             return st
         st = dict(st)
         order = []
+        self._cur = st
         self._post(n, order)
         for x in order:
             st = self.event(x, st, base_init and x is n, decl_obj if x is unwrap_construct(n) else None)
@@ -1210,8 +1794,21 @@ class Interp:
         if n.get("k") == "Lambda":
             return
         if n.get("k") == "Cond":
-            # both arms may be evaluated: only allow event-free arms
-            pass
+            # only one arm is evaluated: take the one the environment selects; arms with lifetime events under an
+            # undecided condition are not modelled
+            v = self.eval_cond(n["c"])
+            self._post(n["c"], out)
+            arms = [n["then"], n["else"]]
+            if v is not None:
+                self._post(arms[0 if v else 1], out)
+            else:
+                for arm in arms:
+                    if arm is not None and self.has_mutations(arm):
+                        raise Unknown("conditional expression with lifetime events in its arms at line %s: %s" % (n.get("l"), render(n)[:100]))
+                    if arm is not None:
+                        self._post(arm, out)
+            out.append(n)
+            return
         for c in children(n):
             self._post(c, out)
         out.append(n)
@@ -1220,6 +1817,21 @@ class Interp:
         k = n.get("k")
         if is_call(n) and n.get("noreturn"):
             return None
+        if k == "Assign" and unwrap(n["lhs"]).get("k") == "Ref" and unwrap(n["lhs"]).get("dk") == "local":
+            self._cur = st
+            self.track_value(st, unwrap(n["lhs"])["d"], n["rhs"] if n.get("op") == "=" else None)
+        elif k == "Un" and n.get("op") in ("++", "--") and unwrap(n["e"]).get("k") == "Ref" and unwrap(n["e"]).get("dk") == "local":
+            st.pop(("val", unwrap(n["e"])["d"]), None)
+        elif is_call(n) and any(kk[0] == "val" for kk in st):
+            pts = n.get("pt") or []
+            for i, a in enumerate(n.get("a") or []):
+                a0 = unwrap(a)
+                if a0.get("k") == "Un" and a0.get("op") == "&" and unwrap(a0["e"]).get("k") == "Ref":
+                    st.pop(("val", unwrap(a0["e"]).get("d")), None)
+                elif a0.get("k") == "Ref" and a0.get("dk") == "local" and ("val", a0.get("d")) in st:
+                    t = self.fn.type(pts[i]) if i < len(pts) else ""
+                    if t.rstrip().endswith("&") and not t.startswith("const "):
+                        st.pop(("val", a0["d"]), None)
         # ---- vector member uses
         vm = vec_member(n)
         if vm:
@@ -1238,6 +1850,19 @@ class Interp:
         if not is_call(n):
             return st
         cal = n.get("callee", "")
+        if cal == "std::for_each":
+            fe = self.for_each_pool(n)
+            if fe is not None:
+                what, b, kind, rng_ok = fe
+                o = obj_id(b)
+                if o is None:
+                    raise Unknown("release/increase for_each over the arrays of an unnamed object at line %s" % n.get("l"))
+                self.touched = True
+                self.ensure(st, o, self.obj_type(b))
+                self.ob("loop-range", "%s._%s/%s" % (o.split("#")[0], kind, what), rng_ok,
+                        "std::for_each over [begin, end) of two different vectors" if not rng_ok else "loop ranges over the whole vector", n.get("l"))
+                self.pool_event(what, o, kind, st, n.get("l"))
+                return st
         if cal in (POOL + "release_memory", POOL + "increase_memory"):
             return self.single_pool_call(n, st)
         if cal in (POOL + "copy", POOL + "convert") and len(n.get("a", [])) >= 2:
@@ -1268,7 +1893,7 @@ class Interp:
                 if pp is not None and is_call(pp) and p in (pp.get("a") or []):
                     cal = str(pp.get("callee", ""))
                     okc = pp.get("k") in ("Construct", "TempObj") or (pp.get("k") == "MCall" and pp.get("n") in ("assign", "insert")) \
-                        or cal in ("std::distance",)
+                        or cal in ("std::distance",) or (cal == "std::for_each" and self.for_each_pool(pp) is not None)
                     if not okc:
                         self.taint(o, "iterators of %s are handed to %s (line %s), which the check does not model" % (name, cal or "a call", line), (kind,))
             if m in VEC_READS:
@@ -1480,7 +2105,8 @@ class Interp:
         res = False
         if callee.name and callee.name.startswith("_") and not callee.d.get("ctor") and not callee.d.get("dtor") and self.depth < 4:
             memo[id(callee)] = False
-            it = Interp(self.fam, callee, summaries={}, depth=self.depth + 2).run()
+            with _alias_scope():
+                it = Interp(self.fam, callee, summaries={}, depth=self.depth + 2).run()
             bad = [o_ for o_ in it.obligations + exit_obligations(it) if not o_[2] and o_[0] != "index-array-write"]
             res = bool(bad) and not it.unknown
         memo[id(callee)] = res
@@ -1496,9 +2122,10 @@ class Interp:
                 init[("this",) + k[1:]] = v
             elif len(k) >= 2 and k[1] == o and k[0] in ("flag", "len", "fs", "pend", "rel"):
                 init[(k[0], "this") + k[2:]] = v
-        it = Interp(self.fam, callee, env=self.call_env(callee, n), summaries=self.summaries, depth=self.depth + 1)
-        it.init_state = init
-        it.run()
+        with _alias_scope():
+            it = Interp(self.fam, callee, env=self.call_env(callee, n), summaries=self.summaries, depth=self.depth + 1)
+            it.init_state = init
+            it.run()
         for u in it.unknown:
             self.unk("in helper %s: %s" % (short(callee.qn), u))
         tag = "this" if o == "this" else o.split("#")[0]
@@ -1554,8 +2181,9 @@ class Interp:
             mode = self.const_of(a["a"][-1])
             base = self.fam.by_key.get("Container::clone(const Container &,CloneMode)")
             if mode is not None and base is not None:
-                it = Interp(self.fam, base, env={base.params[1]["n"]: mode}, summaries=self.summaries, depth=self.depth + 1).run()
-                if not it.unknown and it.exits:
+                with _alias_scope():
+                    it = Interp(self.fam, base, env={base.params[1]["n"]: mode}, summaries=self.summaries, depth=self.depth + 1).run()
+                if not it.unknown and it.exits and not it.mode_undecided:
                     stx = None
                     for s_, _ in it.exits:
                         stx = join_state(stx, s_)
@@ -1609,7 +2237,8 @@ class Interp:
         if self.depth > 6:
             return None
         self.summaries[key] = None     # recursion guard
-        it = Interp(self.fam, callee, env=env, summaries=self.summaries, depth=self.depth + 1).run()
+        with _alias_scope():
+            it = Interp(self.fam, callee, env=env, summaries=self.summaries, depth=self.depth + 1).run()
         if it.unknown or not it.exits:
             return None
         if it.nevents == 0 and not callee.d.get("ctor"):
@@ -2629,7 +3258,7 @@ def extracted_tables(fam):
             st = None
             for s_, _ in it.exits:
                 st = join_state(st, s_)
-            if it.unknown or st is None:
+            if it.unknown or st is None or it.mode_undecided:
                 continue
             fl = st.get(("flag", "this"))
             ctab[val] = (classify(st[("this", "indices")], fl, it, "indices", fn.params[0]["n"]),
